@@ -28,6 +28,9 @@ def expand(op, meta_shapes):
             steps.append(('exp_lim', e))
         steps.append(('exp_hook', e))
         return steps
+    if k == 'qexp':
+        # is_satisfied() and is_saturated() are two library operations, issued in this order
+        return [('qexp_sat', op[1]), ('qexp_satu', op[1])]
     if k == 'mon':
         seqs = op[4:]
         if not seqs:
@@ -108,6 +111,23 @@ def check(meta, t, rec, budget=20000):
         cands.sort()
         for _, i in cands:
             opi, s, last, a, b, ob, op = threads[i][pos[i]]
+            if s[0] in ('qexp_sat', 'qexp_satu'):
+                # read-only step: compare one component of the recorded answer with the model's flag
+                x = m.exps.get(s[1])
+                got = ob.q.get(s[1])
+                if x is None or got is None:
+                    continue
+                want = x.sat() if s[0] == 'qexp_sat' else x.satu()
+                if got[0 if s[0] == 'qexp_sat' else 1] != want:
+                    if best[0] is None or sum(pos) >= best[0][0]:
+                        best[0] = (sum(pos), i, opi, op, ['%s of expectation %d recorded %s, model %s' % ('is_satisfied' if s[0] == 'qexp_sat' else 'is_saturated', s[1], got, want)])
+                    continue
+                pos2 = list(pos); pos2[i] += 1
+                order.append((i, opi))
+                if search(m, pos2):
+                    return True
+                order.pop()
+                continue
             m2 = m.clone()
             try:
                 pr = m2.apply(s)
